@@ -7,7 +7,9 @@ syntax has it.  Neither parser is encodable (LALRPOP + regex, serde); the transl
                       those of the resource part (never swapped), context the converted context part or the empty default; every other sequence is refused;
   cedar_type_to_json_type   Set<T> -> Set of the converted T; a name -> EntityOrCommon with that name; a record -> a closed Record with the converted attributes;
   convert_attr_decl   name, `?` (required flag, symbolic) and the converted type of an attribute;
-  convert_context_decl   a named context -> a reference to that common type; a literal context -> a closed record of the converted attributes.
+  convert_context_decl   a named context -> a reference to that common type; a literal context -> a closed record of the converted attributes;
+  convert_entity_decl    `entity N0, N1 in [P0, P1] { .. } tags T` (with and without tags): every declared name gets the entity type with exactly these parent types,
+                      this shape and these tags; refused only when a name is reserved.
 Recursive conversions are stubs returning tokens (structural induction).  A native battery (op `schema_syntax`) compares Cedar-syntax schemas with hand-written
 JSON equivalents through everything the public Schema API exposes, and round-trips both printers."""
 import itertools
@@ -48,6 +50,7 @@ def install_nonempty(ex):
         refs = [Ref(r.fid, ('field', r.place, 0, 'head'))] + [Ref(r.fid, ('field', ('field', r.place, 1, 'tail'), i, '?')) for i in range(len(it) - 1)]
         return Agg('struct', '~vec_iter', None, refs)
     ex.stub(r'nonempty::NonEmpty::<.*>::iter$', ne_iter, 'NonEmpty::iter: references to head then tail')
+    ex.stub(r'nonempty::Iter<.*> as Iterator>::cloned::<', lambda ex_, st, c, A: (lambda it: Agg('struct', '~vec_iter', None, [C.res(ex_, st, x) for x in it.fields]) if isinstance(it, Agg) and it.name == '~vec_iter' else None)(C.res(ex_, st, A[0])), 'NonEmpty iter().cloned(): the elements')
     ex.stub(r'nonempty::NonEmpty::<.*>::first$', lambda ex_, st, c, A: (lambda r: Ref(r.fid, ('field', r.place, 0, 'head')))(C.base_ref(ex_, st, A[0])), 'NonEmpty::first')
 
 
@@ -244,6 +247,92 @@ def type_nodes(ctx):
     claim('convert_context_decl literal', ex, outs, rets, ctx_literal, 'a literal context is not translated to a closed record of its translated attributes')
 
 
+def entity_decl(ctx, with_tags):
+    """convert_entity_decl on `entity N0, N1 in [P0, P1] { attrs } tags T`: every declared name gets the entity type with exactly these parents, this shape and these tags"""
+    P = ctx.prog('core')
+    f = P.method(FILE, 'convert_entity_decl', nargs=1)
+    ctx.use(f)
+    ex = ctx.new_exec('core')
+    ex.havoc_unknown = False
+    ex.max_paths = 2000
+    gid = lambda ex_, st, v: getattr(strip(ex_, st, v), 'id', None)
+    names = [Opaque('ast::id::Id', f'declared name {i}') for i in range(2)]
+    ids = {n.id: Opaque('ast::id::UnreservedId', f'name {i} as an id') for i, n in enumerate(names)}
+    parents = [Opaque(AST + 'Path', f'parent type {i}') for i in range(2)]
+    raws = {p_.id: Opaque('validator::raw_name::RawName', f'parent type {i} as RawName') for i, p_ in enumerate(parents)}
+    attrs, shape_j = Opaque('Vec<Node<Annotated<AttrDecl>>>', 'attribute declarations'), Opaque('validator::json_schema::AttributesOrContext', 'converted shape')
+    tag_ty, tag_j = Opaque(AST + 'Type', 'tag type'), Opaque('validator::json_schema::Type', 'converted tag type')
+    NAMEOK = [z3.Bool(f'name_{i}_is_not_reserved') for i in range(2)]
+    decl = Agg('variant', AST + 'EntityDecl', 'Standard', [Agg('struct', AST + 'StandardEntityDecl', None, [nonempty([node(n) for n in names]), Agg('struct', '~vec', None, parents), node(attrs), some(node(tag_ty)) if with_tags else none()],
+                                                                  ('names', 'member_of_types', 'attrs', 'tags'))])
+    arg = Agg('struct', AST + 'Annotated', None, [node(decl), Opaque('Annotations', 'annotations')], ('data', 'annotations'))
+    ex.stub(r'convert_attr_decls(::<.*>)?$', lambda ex_, st, c, A: shape_j if gid(ex_, st, strip(ex_, st, A[0]).fields[0]) == attrs.id else None, 'convert_attr_decls(attrs): the converted shape (token)')
+    ex.stub(r'cedar_type_to_json_type$', lambda ex_, st, c, A: tag_j if gid(ex_, st, strip(ex_, st, A[0]).fields[0]) == tag_ty.id else None, 'cedar_type_to_json_type(tag type): token')
+    ex.stub(r'RawName as From<.*Path>>::from$|Path as Into<.*RawName>>::into$', lambda ex_, st, c, A: raws.get(gid(ex_, st, A[0])), 'Path -> RawName (token)')
+
+    def conv_id(ex_, st, c, A):
+        n = strip(ex_, st, A[0])
+        i = gid(ex_, st, n.fields[0]) if isinstance(n, Agg) else None
+        if i not in ids:
+            return None
+        k = [x.id for x in names].index(i)
+        return [([NAMEOK[k]], ok(ids[i])), ([z3.Not(NAMEOK[k])], err(Agg('struct', '~error', None, [Opaque('str', f'reserved name {k}')])))]
+    ex.stub(r'convert_id$', conv_id, 'convert_id(name): the id, or a reserved-name error (free)')
+    ex.stub(r'Annotations as Into<.*>>::into$|Annotations as From<.*>>::from$|Annotations as Clone>::clone$', lambda ex_, st, c, A: strip(ex_, st, A[0]), 'annotations carried over (token)')
+    ex.stub(r'Node<.*Id> as Clone>::clone$|Id as Clone>::clone$|EntityType<.*> as Clone>::clone$', lambda ex_, st, c, A: strip(ex_, st, A[0]), 'clone')
+    ex.stub(r'ToJsonSchemaErrors as From<ToJsonSchemaError>>::from$|ToJsonSchemaError as Into<ToJsonSchemaErrors>>::into$', lambda ex_, st, c, A: Agg('struct', '~vec', None, [A[0]]), 'a single error as an error list')
+    ex.stub(r'ToJsonSchemaErrors as IntoIterator>::into_iter$', lambda ex_, st, c, A: (lambda v: Agg('struct', '~vec_iter', None, list(v.fields)) if isinstance(v, Agg) and v.name == '~vec' else None)(strip(ex_, st, A[0])), 'errors into_iter')
+    ex.stub(r'nonempty::NonEmpty::<.*>::collect::<', lambda ex_, st, c, A: (lambda v: (none() if not v.fields else some(Agg('struct', '~errors', None, list(v.fields)))) if isinstance(v, Agg) and v.name in ('~vec', '~vec_iter') else None)(strip(ex_, st, A[0])), 'NonEmpty::collect: none iff empty')
+    def vappend(ex_, st, c, A):
+        a, b = C.res(ex_, st, A[0]), C.res(ex_, st, A[1])
+        if not (isinstance(a, Agg) and a.name == '~vec' and isinstance(b, Agg) and b.name == '~vec'):
+            return None
+        ra, rb = C.base_ref(ex_, st, A[0]), C.base_ref(ex_, st, A[1])
+
+        def go(s2):
+            ex_.write(s2, ra.fid, ra.place, Agg('struct', '~vec', None, list(a.fields) + list(b.fields)))
+            ex_.write(s2, rb.fid, rb.place, Agg('struct', '~vec', None, []))
+        return [([], UNIT, go)]
+    ex.stub(r'Vec::<.*>::append$', vappend, 'Vec::append: moves the elements over')
+    ex.stub(r'ToJsonSchemaErrors::new$', lambda ex_, st, c, A: A[0], 'ToJsonSchemaErrors::new')
+    install_nonempty(ex)
+    C.install(ex)
+    outs = ex.run(f, [arg])
+    ctx.absorb(ex)
+    nm = f'convert_entity_decl (2 names, 2 parent types, {"tags" if with_tags else "no tags"})'
+    ctx.panic_summary(nm, outs, ex)
+    rets = [o for o in outs if o.kind == 'ret']
+    bad, cover = [], []
+    for o in rets:
+        pc = z3.And(o.pc) if o.pc else T
+        cover.append(pc)
+        v = strip(ex, o.st, o.val)
+        if not (isinstance(v, Agg) and v.variant in ('Ok', 'Err')):
+            raise NotEncoded(f'{nm}: result {v!r}')
+        if v.variant == 'Err':
+            bad.append(z3.And(pc, z3.And(NAMEOK)))          # refused although no name is reserved
+            continue
+        items = strip(ex, o.st, v.fields[0])
+        good = isinstance(items, Agg) and len(items.fields) == 2
+        if good:
+            for k, it in enumerate(items.fields):
+                it = strip(ex, o.st, it)
+                et = strip(ex, o.st, it.fields[1]) if isinstance(it, Agg) and len(it.fields) == 2 else None
+                fl = {n: strip(ex, o.st, x) for n, x in zip(et.fnames or (), et.fields)} if isinstance(et, Agg) else {}
+                kind = fl.get('kind')
+                std = strip(ex, o.st, kind.fields[0]) if isinstance(kind, Agg) and kind.variant == 'Standard' else None
+                sf = {n: strip(ex, o.st, x) for n, x in zip(std.fnames or (), std.fields)} if isinstance(std, Agg) else {}
+                mot = [gid(ex, o.st, x) for x in getattr(sf.get('member_of_types'), 'fields', ())]
+                tg = sf.get('tags')
+                tags_ok = (isinstance(tg, Agg) and tg.variant == 'Some' and gid(ex, o.st, tg.fields[0]) == tag_j.id) if with_tags else (isinstance(tg, Agg) and tg.variant == 'None')
+                good = good and gid(ex, o.st, it.fields[0]) == ids[names[k].id].id and mot == [raws[p_.id].id for p_ in parents] and gid(ex, o.st, sf.get('shape')) == shape_j.id and tags_ok
+        bad.append(z3.And(pc, z3.Not(z3.And(z3.BoolVal(bool(good)), z3.And(NAMEOK)))))
+    ctx.decide(f'{nm}/every declared name gets the entity type with these parents, this shape and these tags; refused only for a reserved name', [z3.Or(bad) if bad else T], ex=ex, sample={'paths': len(rets)},
+               on_sat=lambda m: battery(ctx, nm, 'validator/cedar_schema/to_json_schema.rs: convert_entity_decl', 'an entity declaration loses a name, a parent type, its shape or its tags'))
+    ctx.decide(f'{nm}/paths-cover', [z3.Not(z3.Or(cover or [F]))], ex=ex)
+    ctx.decide(f'{nm}/witness-accepted', [z3.And(NAMEOK), z3.Or(cover or [F])], expect='sat', ex=ex)
+
+
 def sequences(maxlen):
     for n in range(1, maxlen + 1):
         for seq in itertools.product(KINDS, repeat=n):
@@ -259,6 +348,7 @@ def families(ctx, batt=None):
     chunks = [seqs[i::8] for i in range(8)]
     fam = [(f'appliesTo clauses, chunk {i}', lambda ch=ch: [app_decls(ctx, s) for s in ch]) for i, ch in enumerate(chunks)]
     fam.append(('types, attributes, contexts', lambda: type_nodes(ctx)))
+    fam.append(('entity declarations', lambda: [entity_decl(ctx, True), entity_decl(ctx, False)]))
     return fam
 
 
@@ -292,11 +382,11 @@ def run(ctx):
     ctx.run_families(families(ctx))
     ctx.guarded('native battery', lambda: battery(ctx, 'native battery', 'Cedar schema syntax vs JSON schema syntax', 'native schema-syntax battery'))
     ctx.bounds += [f'appliesTo clauses: every sequence of 1..{4 if ctx.tier == "thorough" else 3} parts over {{context, principal with 2 types, principal without types, resource with 2 types, resource without types}} ({780 if ctx.tier == "thorough" else 155} sequences), parts opaque',
-                   'types: Set<T>, a name, a record of 2 attributes; attribute declarations with a symbolic `?`; named and literal contexts; nested conversions as tokens (structural induction)',
+                   'types: Set<T>, a name, a record of 2 attributes; attribute declarations with a symbolic `?`; named and literal contexts; entity declarations with 2 names and 2 parent types, with and without tags; nested conversions as tokens (structural induction)',
                    'native battery: Cedar-syntax schemas vs hand-written JSON equivalents (entity types, memberOf, attributes required / optional, nested records, sets, common types, tags, enums, namespaces, action groups, appliesTo with several types, contexts) '
                    'compared through the public Schema API and by validating probe policies; both printers round-tripped']
     ctx.assumptions += ['Path -> RawName, annotations, source locations and the error constructors are opaque tokens; NonEmpty is modelled as head + tail; BTreeMap::from_iter keeps every entry',
-                        'NOT decided - most of C09: both parsers (LALRPOP / serde), name resolution and common-type inlining after the translation (ValidatorSchema construction), the JSON -> Cedar printer (fmt.rs), namespaces, entity and action declarations as a whole '
-                        '(convert_entity_decl / convert_action_decl / convert_namespace); those are sampled by the native battery only']
+                        'NOT decided - most of C09: both parsers (LALRPOP / serde), name resolution and common-type inlining after the translation (ValidatorSchema construction), the JSON -> Cedar printer (fmt.rs), namespaces, enumerated entity declarations and action declarations as a whole '
+                        '(convert_action_decl / convert_namespace); those are sampled by the native battery only']
     return ctx.finish('Solver-decided translation of parts of Cedar-syntax schema declarations into the JSON schema data model (to_json_schema.rs executed from the MIR): the appliesTo clause as a state machine over all part sequences of length <= 3, '
-                      'type expressions, attribute declarations, context declarations. A narrow slice of C09.')
+                      'type expressions, attribute declarations, context declarations, standard entity declarations. A narrow slice of C09.')
